@@ -75,6 +75,10 @@ def base_cfg(algo, seed, rng):
         cfg["low"], cfg["high"] = [-1.0], [1.0]
     if algo in ("reinforce", "actor_critic", "a2c"):
         cfg["discrete"] = bool(rng.integers(2))
+    if algo == "a2c":
+        # vector environment that reuses one observation buffer
+        cfg["inplace_obs"] = True
+        cfg["steps_per_update"] = 1
     if rng.random() < 0.5:
         from vf.algos import random_options
         cfg["options"] = random_options(algo, rng)
@@ -146,7 +150,8 @@ def run_case(case):
             res.violation(
                 f"C09/not_reproducible/{algo}",
                 f"{algo}: two runs with equal seeds (different PYTHONHASHSEED / "
-                f"global RNG state / start time) differ in '{f}'",
+                f"global RNG state / start time / process history / buffer "
+                f"alignment) differ in '{f}'",
                 {"field": f, "run_a": A.get(f), "run_b": B.get(f),
                  "global_rng_calls_from_repository": A.get("tripwire")})
             return res
